@@ -163,3 +163,29 @@ def _callable(interp, args, kwargs, node, env):
 
 A.BUILTINS.setdefault('vars', _vars)
 A.BUILTINS.setdefault('callable', _callable)
+
+
+def precomputed_table(rel='pysph/sph/equation.py'):
+    """{symbol: (code text, {context name: value as a syntax node}, node)} of the precomputed pair symbols, obtained by interpreting precomputed_symbols() (the code of a
+    block may be a literal, a dedent() of one, or put together by helper functions / format / join - all the same here)"""
+    it = interpreter()
+    res = call_function(it, rel, 'precomputed_symbols')
+    at = res.attrs if isinstance(res, (A.Inst, A.Obj)) else res
+    if not isinstance(at, dict):
+        raise AnalysisError('precomputed_symbols() does not return a table: %r' % (res,))
+    tab = {}
+    for key, blk in at.items():
+        if not isinstance(blk, A.Inst) or blk.cls.node.name != 'BasicCodeBlock':
+            continue
+        kw = dict(blk.kwargs)
+        code = kw.pop('code', blk.args[0] if blk.args else None)
+        if not isinstance(code, str):
+            raise AnalysisError('code of precomputed symbol %s is not a string: %r' % (key, code))
+        ctx = {}
+        for k, v in kw.items():
+            try:
+                ctx[k] = ast.parse(repr(v), mode='eval').body
+            except SyntaxError:
+                ctx[k] = ast.Constant(value=None)
+        tab[key] = (code, ctx, blk.node)
+    return tab
